@@ -254,6 +254,31 @@ def _entries():
     add("svd_interface", "method=randomized_svd", lambda rs: svd_interface(c(I.M), method="randomized_svd", n_eigenvecs=3, random_state=rs), det_svdi)
     add("svd_interface", "method=randomized_svd,mask,non_negative", lambda rs: svd_interface(np.abs(I.M), method="randomized_svd", n_eigenvecs=3, mask=c(I.mask2), non_negative=True, random_state=rs), det_symeig)
 
+    # ---- the randomized solver given as a CALLABLE (svd= / method= accept "a callable"): the seed must reach it exactly
+    # as it reaches the string form.  Three forms of callable, rotated over the entries that take svd=/method=
+    # (probe on the unchanged tree: every one of them accepts callables).
+    import functools
+    SVDF = {"function": randomized_svd, "partial": functools.partial(randomized_svd, n_oversamples=3),
+            "lambda": lambda M, **kw: randomized_svd(M, **kw)}
+    for form, f in SVDF.items():
+        add("svd_interface", "method=<%s randomized_svd>" % form, lambda rs, f=f: svd_interface(c(I.M), method=f, n_eigenvecs=3, random_state=rs), det_svdi)
+    f = SVDF["partial"]
+    add("svd_interface", "method=<partial randomized_svd>,mask", lambda rs, f=f: svd_interface(np.abs(I.M), method=f, n_eigenvecs=3, mask=c(I.mask2), random_state=rs), det_svdi, slow=True)
+    F, P, L = SVDF["function"], SVDF["partial"], SVDF["lambda"]
+    add("parafac", "init=svd,svd=<function randomized_svd>", lambda rs: D.parafac(c(I.T), 2, n_iter_max=3, init="svd", svd=F, tol=0, random_state=rs), det_parafac)
+    add("non_negative_parafac", "init=svd,svd=<partial randomized_svd>", lambda rs: D.non_negative_parafac(c(I.P), 2, n_iter_max=3, init="svd", svd=P, tol=0, random_state=rs), det_nnparafac, slow=True)
+    add("non_negative_parafac_hals", "init=svd,svd=<lambda randomized_svd>", lambda rs: D.non_negative_parafac_hals(c(I.P), 2, n_iter_max=1, init="svd", svd=L, tol=0, random_state=rs), det_nnhals, slow=True)
+    add("constrained_parafac", "init=svd,svd=<function randomized_svd>", lambda rs: D.constrained_parafac(c(I.T), 2, n_iter_max=2, n_iter_max_inner=2, init="svd", svd=F, non_negative=True, random_state=rs), det_ccp, slow=True)
+    add("randomised_parafac", "init=svd,svd=<partial randomized_svd>", lambda rs: D.randomised_parafac(c(I.T), 2, 8, n_iter_max=3, init="svd", svd=P, tol=0, random_state=rs), det_parafac, slow=True)
+    add("tucker", "init=svd,svd=<lambda randomized_svd>", lambda rs: D.tucker(c(I.T), [2, 2, 2], n_iter_max=3, init="svd", svd=L, tol=0, random_state=rs), det_tucker, slow=True)
+    add("partial_tucker", "init=svd,svd=<function randomized_svd>", lambda rs: D.partial_tucker(c(I.T), [2, 2], modes=[0, 2], n_iter_max=3, init="svd", svd=F, tol=0, random_state=rs), det_ptucker, slow=True)
+    add("non_negative_tucker_hals", "init=svd,svd=<partial randomized_svd>", lambda rs: D.non_negative_tucker_hals(c(I.P), [2, 2, 2], n_iter_max=1, init="svd", svd=P, tol=0, random_state=rs), det_nntuckerh, slow=True)
+    add("parafac2", "init=svd,svd=<lambda randomized_svd>", lambda rs: D.parafac2(c(I.slices), 2, n_iter_max=3, init="svd", svd=L, tol=0, linesearch=False, random_state=rs), det_parafac2, slow=True)
+    add("parafac2", "init=random,svd=<function randomized_svd>,linesearch,n_iter_max=9", lambda rs: D.parafac2(c(I.slices), 2, n_iter_max=9, init="random", svd=F, tol=1e-30, linesearch=True, random_state=rs), det_parafac2, slow=True)
+    addc("CP.fit_transform", "init=svd,svd=<partial randomized_svd>", lambda rs: D.CP(2, n_iter_max=3, init="svd", svd=P, tol=0, random_state=rs), lambda m: m.fit_transform(c(I.T)), det_parafac, slow=True)
+    addc("Tucker.fit_transform", "init=svd,svd=<function randomized_svd>", lambda rs: D.Tucker([2, 2, 2], n_iter_max=3, init="svd", svd=F, tol=0, random_state=rs), lambda m: m.fit_transform(c(I.T)), det_tucker, slow=True)
+    addc("Parafac2.fit_transform", "init=svd,svd=<lambda randomized_svd>", lambda rs: D.Parafac2(2, n_iter_max=3, init="svd", svd=L, tol=0, linesearch=False, return_errors=True, random_state=rs), lambda m: m.fit_transform(c(I.slices)), det_parafac2, slow=True)
+
     # ---- regression
     by_params = lambda m: type(m)(**m.get_params())
 
@@ -292,6 +317,24 @@ def entry_keys():
 
 
 # ----------------------------------------------------------------------------- replaying one history
+class SubRandomState(np.random.RandomState):
+    """a user subclass of RandomState is a RandomState"""
+
+
+SEEDFORMS = {"int": int, "np.int64": np.int64, "np.uint32": np.uint32}      # how the integer seed is handed over
+GENFORMS = {"RandomState": np.random.RandomState, "subclass": SubRandomState,
+            "Generator": lambda s: np.random.Generator(np.random.MT19937(s))}   # how "a generator" is handed over
+# On the tree this was built on, check_random_state rejects NumPy integer scalars and numpy.random.Generator with a
+# ValueError.  A rejection is an outcome (digest of the exception class) and is reproducible; what the forms are
+# for is a routine that ACCEPTS such a seed but does not honour it (e.g. silently falls back to the global stream).
+
+
+def gen_state_digest(r):
+    if isinstance(r, np.random.RandomState):
+        return state_digest(r.get_state())
+    return _h(["Generator", repr(sorted(r.bit_generator.state.items(), key=str))])
+
+
 PERTURB = [
     lambda: np.random.random_sample(3),
     lambda: (np.random.standard_normal(1), np.random.random_sample(2)),   # leaves a cached gaussian
@@ -305,7 +348,8 @@ def run_trace(case):
                start: real seed of the global stream at trace start, flavour: index into PERTURB}
     Returns the list of events (Reset first)."""
     ent = registry()[case["entry"]]
-    real = {int(k): int(v) for k, v in case["seeds"].items()}
+    sform = SEEDFORMS[case.get("seedform", "int")]
+    real = {int(k): sform(int(v)) for k, v in case["seeds"].items()}
     tab = {}
 
     def intern(d):
@@ -314,15 +358,27 @@ def run_trace(case):
         return tab[d]
 
     np.random.seed(int(case["start"]))
-    gens = {g: np.random.RandomState(real[int(ms)]) for g, ms in sorted(case["genseed"].items())}
+    gform = GENFORMS[case.get("genform", "RandomState")]
+    gens = {g: gform(int(real[int(ms)])) for g, ms in sorted(case["genseed"].items())}
     # estimator objects constructed ONCE per trace with an integer seed and then fitted repeatedly (class entries only)
     objseed = {o: int(ms) for o, ms in case.get("objseed", {}).items()}
-    objs = {o: ent["obj"]["make"](real[ms]) for o, ms in sorted(objseed.items())} if "obj" in ent else {}
+    objs = {}
+    if "obj" in ent:
+        for o, ms in sorted(objseed.items()):
+            try:
+                objs[o] = ent["obj"]["make"](real[ms])
+            except Exception as ex:          # a constructor that rejects the seed form: every use of the object has
+                objs[o] = ex                 # that exception as its outcome
+
+    def the_obj(o):
+        if isinstance(objs[o], Exception):
+            raise objs[o]
+        return objs[o]
     perturb = PERTURB[int(case["flavour"]) % len(PERTURB)]
 
     def obs():
         return {"glob": intern("S" + state_digest(np.random.get_state())),
-                "gens": {g: intern("S" + state_digest(r.get_state())) for g, r in gens.items()}}
+                "gens": {g: intern("S" + gen_state_digest(r)) for g, r in gens.items()}}
 
     events = []
     ev = {"id": "%s/0" % case["id"], "tr": case["tr"], "ev": "Reset", "entry": case["entry"], "e": "none", "s": 0, "g": "none", "o": "none",
@@ -335,7 +391,7 @@ def run_trace(case):
         if op["op"] == "Perturb":
             perturb()
         elif op["op"] == "Reseed":
-            np.random.seed(real[int(op["s"])])
+            np.random.seed(int(real[int(op["s"])]))
         else:
             if op["op"] == "CallNone":
                 call = ent["det"] if op["e"] == "det" else (lambda: ent["rand"](None))
@@ -347,10 +403,10 @@ def run_trace(case):
                 call = lambda: ent["rand"](gens[op["g"]])
             elif op["op"] == "FitObj":          # the SAME object again
                 ev["s"] = objseed[op["o"]]
-                call = lambda: ent["obj"]["fit"](objs[op["o"]])
+                call = lambda: ent["obj"]["fit"](the_obj(op["o"]))
             elif op["op"] == "CloneFit":        # a new estimator built from get_params() of the (possibly fitted) object
                 ev["s"] = objseed[op["o"]]
-                call = lambda: ent["obj"]["fit"](ent["obj"]["clone"](objs[op["o"]]))
+                call = lambda: ent["obj"]["fit"](ent["obj"]["clone"](the_obj(op["o"])))
             else:
                 raise ValueError(op["op"])
             try:
